@@ -11,6 +11,7 @@
 \*                                    record.Base: MarshalRecord -> NewRawWrapper -> Unwrap into a fresh struct
 \*  {"e":"parse", "b":bytes, "ok","meta","format","data", "rok","rwire"}   NewRawWrapper on arbitrary bytes
 \*                                    (+ MarshalRecord of the result when there is one)
+\*  {"e":"misc", "cls":name}          records without metadata, foreign arguments: survival only
 \*  any event: "panic": text          a step panicked
 EXTENDS RecordFormat, Json, TLC
 
@@ -50,6 +51,7 @@ Good(ev) ==
     /\ "panic" \notin DOMAIN ev
     /\ CASE ev.e = "rt"    -> RtGood(ev)
          [] ev.e = "parse" -> ParseGood(ev)
+         [] ev.e = "misc"  -> TRUE      \* API corners the property is silent on: only survival is judged
 
 Bad == {i \in 1..Len(Trace) : ~Good(Trace[i])}
 Init == l = 0 /\ PrintT(<<"@@", ToJson([bad |-> Bad, n |-> Len(Trace)])>>)
